@@ -32,7 +32,7 @@ TIERS = {
 }
 # further workloads for the property's online monitor (vf/online.py): the repository's tests and other checks' generated cases
 ONLINE = {'which': ['scope'], 'foreign': ['C01', 'C04', 'C05', 'C07', 'C10', 'C12', 'C13', 'C17', 'C20'], 'n': {'quick': 40, 'thorough': 600}}
-REQUIRED_BUCKETS = ['entry:ident', 'entry:slash', 'entry:list', 'entry:none', 'entry:empty', 'entry:invalid-name', 'entry:invalid-type',
+REQUIRED_BUCKETS = ['entry:invalid-list-of-non-strings', 'entry:ident', 'entry:slash', 'entry:list', 'entry:none', 'entry:empty', 'entry:invalid-name', 'entry:invalid-type',
                     'entry:invalid-list', 'exit:return', 'exit:raise-Exception', 'exit:raise-BaseException', 'depth:4+',
                     'call:direct', 'call:scoped-get', 'call:scoped-get-with-suffix-of-active-scope', 'call:scoped-ref', 'call:probe-raises-in-scoped', 'call:probe-raises-BaseException-in-scoped', 'entry:deferred', 'entry:decorator', 'threads:shared-scoped-callable', 'threads:scheduled',
                     'threads:free', 'threads:child-in-scope', 'threads:scoped-binding-seen', 'policy:random', 'policy:pct', 'policy:preempt',
@@ -53,7 +53,9 @@ ASSUMPTIONS = ['interleaving granularity = LINE events inside gin/*.py']
 _S = {}
 KINDS = ['a', 'b', 'a/b', 'b/c/a', ['x'], ['x', 'y'], [], None, '', 'a b', 'a//b', '/a', 'a/', 5, ['x y'], ['ok', ''], ('t',), 1.5,
          # dotted components are valid module-like names; malformed dots are not
-         'exp.v1', 'a.b/c', ['m.n', 'x'], 'a..b', ['.a']]
+         'exp.v1', 'a.b/c', ['m.n', 'x'], 'a..b', ['.a'],
+         # lists holding something that is no string
+         ['a', 3], [None], ['x', ['y']], [b'a']]
 # call kinds of the first version / of the extension wave; SEQ_ONLY kinds start threads, change the global configuration or build
 # classes (many LINE events): thread programs run them as a plain direct call
 OLD_CALLS = ['direct', 'scoped-get', 'scoped-ref', 'scoped-raise', 'scoped-get-raise', 'scoped-raise-base', 'scoped-get-raise-base',
@@ -692,12 +694,16 @@ class Runner:
             ctx.bucket('exit:return')
           finally:
             self.m.exit()
-      except ValueError as e:
+      except (ValueError, TypeError) as e:
         if is_body_exc(e):
           raise                       # raised by a block body (here or deeper): handled below like every other body exception
+        if isinstance(e, TypeError) and (valid or not (isinstance(arg, list) and not all(isinstance(c, str) for c in arg))):
+          raise
         if valid:
           # the model was not entered: the exception came out of __enter__
           ctx.check(False, 'valid-scope-rejected', '%s: config_scope(%r) raised %r' % (self.label, arg, e))
+        elif isinstance(e, TypeError):
+          ctx.bucket('entry:invalid-list-of-non-strings')     # (the class of the rejection is not pinned down: a list element that is no string)
         elif 'name_or_scope' not in str(e):
           raise
         ctx.count('oracle_evals')
